@@ -291,6 +291,9 @@ def drive_rounding(rec, count):
             a = np.array([[float(np.ldexp(1.0 + rng.random(), rng.randrange(-1074, -1023))) * rng.choice([1, -1]) for _ in range(2)] for _ in range(m)])
             b = np.array([[float(np.ldexp(1.0 + rng.random(), rng.randrange(1000, 1020))) * rng.choice([1, -1]) for _ in range(2)] for _ in range(m)])
             r0 = np.array([[float(np.ldexp(rng.random() - 0.5, rng.randrange(-60, -20))) for _ in range(2)] for _ in range(m)])
+            if it % 14 == 10:        # the same with the operands exchanged (the subnormal values in the second operand)
+                a, b = b, a
+                fam = "large x subnormal"
         label = "%s m=%d %s data" % (kern[0], m, fam)
         if not rec.progress(label):
             continue
